@@ -189,7 +189,7 @@ def _structure(ctx, p, rng):
 def _scale(b):
     D = b.shape[0]
     m = np.abs(b).reshape(D, -1).max(axis=1) if b.size else np.zeros(D)
-    return np.maximum.accumulate(m) + 1e-300
+    return np.maximum.accumulate(np.asarray(m, dtype=float)) + 1e-300
 
 
 def _program(ctx, p, rng):
